@@ -115,7 +115,7 @@ class Quantity:
             a = np.where(m, a + (x - xe) * self.dadx(a), a)
         return a
 
-    def probes(self, fracs, knots=True, mids=True, ends=True, straddle=True, special=True):
+    def probes(self, fracs, knots=True, mids=True, ends=True, straddle=True, special=True, rng=None):
         X, T = self.X, self.T
         out = []
 
@@ -144,6 +144,9 @@ class Quantity:
             g = g_all[sel]
             x = X[g] + f * (X[g + 1] - X[g])
             add(T[g], self.itx(x), np.where(isend[sel], P_ENDFRAC, P_MID), g)
+        if rng is not None:          # one seeded random point inside every interval
+            f = rng.uniform(1e-3, 1 - 1e-3, len(g_all))
+            add(t_all, self.itx(X[g_all] + f * (X[g_all + 1] - X[g_all])), P_MID, g_all)
         tt = np.arange(self.nt)
         if straddle:
             alo, ahi = self.hit(self.x1), self.hit(self.xN)
@@ -231,7 +234,7 @@ class Quantity:
                 err = np.abs(v.astype(LD) - r).astype(float)
                 tol = 1e-9 * np.abs(r).astype(float) + tolbase
                 ref = r.astype(float)
-            q = err / tol
+            q = np.where(err == 0, 0.0, err / tol)      # an exact match needs no tolerance (tables that are identically 0)
         q = np.where(valid & np.isfinite(q), q, np.inf)
         return q, ref
 
@@ -244,7 +247,7 @@ class Quantity:
             dhi = (xe.astype(LD) - xN.astype(LD)).astype(float)
             reg[xe > xN] = R_HIGHBAND
             reg[dhi > HIGH_BAND] = R_ABOVE
-            reg[np.isnan(xe)] = R_NONPOS
+            reg[np.isnan(xe) | (arg < 0)] = R_NONPOS       # every tabulated argument (E, q, pz) starts at >= 0
         return reg
 
     def call_args(self, t, arg):
@@ -610,12 +613,13 @@ def main(tier):
               kissel_below_edge_inside_table=0, kissel_edge_unknown_probes=0, nodata_failures_confirmed=0, total_compared=0,
               per_function={}, intervals={}, intervals_any={}, samples=[])
     fracs = (0.5,) if tier == 'quick' else FR_ALL
+    rng = np.random.default_rng(common.seed())
     classical = build_quantities()
     tables = {q.fname: dict(tables=q.nt, knots=q.M, duplicated_abscissae=q.ndup, non_monotone_steps=len(q.hulls)) for q in classical}
     for config in (('shipped',) if tier == 'quick' else ('shipped', 'kissel')):
         L = execlib.Lib(config)
         for q in classical:
-            check_quantity(ck, L, q, q.probes(fracs), st)
+            check_quantity(ck, L, q, q.probes(fracs, rng=rng), st)
             check_nodata(ck, L, q, st)
     # ---- Kissel
     ktab = refdata.kissel('kissel')
@@ -628,8 +632,8 @@ def main(tier):
                                        edge_above_first_knot=int((np.log(qb.edge) > qb.x1).sum()))
     L = execlib.Lib('kissel')
     before = st['compared']
-    check_quantity(ck, L, qb, qb.probes(fracs), st)
-    check_quantity(ck, L, qc, qc.probes((0.5,), knots=(tier != 'quick')), st)
+    check_quantity(ck, L, qb, qb.probes(fracs, rng=rng), st)
+    check_quantity(ck, L, qc, qc.probes((0.5,), knots=(tier != 'quick'), rng=rng), st)
     check_nodata(ck, L, qb, st)
     check_nodata(ck, L, qc, st)
     check_total(ck, L, qb, ktab, None, tier, st)
@@ -649,7 +653,7 @@ def main(tier):
         raise common.Inconclusive('too few comparisons: %d values over %d non-trivial intervals' % (st['compared'], distinct))
     cov = dict(evaluations=st['calls'], distinct_nontrivial=distinct,
                rule='every table of CS_Photo/Rayl/Compt/Energy, FF_Rayl, SF_Compt, Fi, Fii, ComptonProfile(_Partial) and (regenerated Kissel '
-                    'configuration) CSb_/CS_Photo_Partial: every knot, every interval at fractions %r, first/last two intervals at %r, both ends '
+                    'configuration) CSb_/CS_Photo_Partial: every knot, every interval at fractions %r plus one seeded random fraction, first/last two intervals at %r, both ends '
                     'straddled by 1e-12..1e-3 relative and at +5e-8/+2e-7 in table space, arguments 0, -1, +-1e-300, 1e300, Kissel edge +-1e-9..3e-2 '
                     'and three points inside the log-log extension, elements/shells without a table; reference = cubic spline through the '
                     'independently parsed knots rounded through %%.10E, extended precision, tolerance = forward error bound; non-trivial = distinct '
